@@ -21,10 +21,10 @@ Inductive reach (id0 : Id) (c0 : config) (h0 : hstate) : foca -> Prop :=
 Lemma step_preserves' rnd (f : foca) i :
   WF f -> input_ok (addr_of (identity f)) i ->
   WF (step_state rnd f i) /\ addr_of (identity (step_state rnd f i)) = addr_of (identity f)
-  /\ Forall (dst_ok (addr_of (identity f)) (named_by i)) (step_effects rnd f i)
+  /\ Forall (dest_ok (addr_of (identity f)) (named_by i)) (step_effects rnd f i)
   /\ not_panicked (step_result rnd f i).
 Proof.
-  intros W I. pose proof (step_preserves rnd f i W I) as H.
+  intros W I. pose proof (step_preserves_plain rnd f i W I) as H.
   unfold step_state, step_effects, step_result.
   destruct (step rnd f i) as [[[f' effs] r] k]. exact H.
 Qed.
